@@ -243,6 +243,43 @@ def run(rep, tier, rng):
             m_.append(("unit",))
             m_.append(("comp", len(m_) - 2, len(m_) - 1))
             wrapped.append((m_, 1 if wrong else 0, "guard-after-write"))
+    # delegation: the disconnect's left branch READS the commitment root of the right branch that the machine wrote
+    # (byte-wise, Frame::write_u8) and compares it with the expected constant (eq_256 + verify); the root is hashed
+    # from scratch in python (c09.RefCmr); half of the expectations are wrong by one bit (jet failure)
+    from props import c09 as _c09
+    rights = [[("unit",)], [("iden",)], [("unit",), ("unit",), ("pair", 0, 1)],
+              [("unit",), ("injl", 0)], [("unit",), ("unit",), ("comp", 0, 1)]]
+    for j in range(10 if quick else 60):
+        rt = rights[j % len(rights)]
+        cmr = _c09.RefCmr().table(rt, None)[-1]
+        good = j % 3 != 2
+        bits = [(byte >> (7 - i)) & 1 for byte in cmr for i in range(8)]
+        if not good:
+            bits[r7.below(256)] ^= 1
+        m_ = list(rt)
+        right = len(m_) - 1
+        m_.append(("iden",))
+        m_.append(("take", len(m_) - 1))
+        committed = len(m_) - 1
+        m_.append(("unit",))
+        m_.append(("word", 8, bits))
+        m_.append(("comp", len(m_) - 2, len(m_) - 1))
+        m_.append(("pair", committed, len(m_) - 1))
+        m_.append(("jet", "e", "eq_256"))
+        m_.append(("comp", len(m_) - 2, len(m_) - 1))
+        m_.append(("jet", "e", "verify"))
+        m_.append(("comp", len(m_) - 2, len(m_) - 1))
+        verified = len(m_) - 1
+        m_.append(("unit",))
+        m_.append(("pair", verified, len(m_) - 1))
+        m_.append(("disc", len(m_) - 1, right))
+        m_.append(("unit",))
+        m_.append(("comp", len(m_) - 2, len(m_) - 1))
+        wrapped.append((m_, 0 if good else 2, "delegation"))
+        p = pg.compact_prog(m_)
+        cases.append(Case("h%d" % k, "run", "%s %s" % (cc.rand_env(r7), pg.prog_pdl(p)), None,
+                          {"features": cc.prog_features(p), "expect": 0 if good else 2, "probe": "delegation"}))
+        k += 1
     for j, (nodes, expect, probe) in enumerate(wrapped):
         for kw in ((0, 6) if quick else (0, 2, 3, 6, 7)):
             for scratch in (False, True):
